@@ -125,6 +125,9 @@ func (in *Inst) dmapYears(key string) (string, []string) {
 	for _, fi := range sub.GetTimeBucketInfoSlice() {
 		ys = append(ys, strconv.Itoa(int(fi.Year)))
 	}
+	if len(ys) == 0 { // a Directory without year files is not a bucket (GetLatestYearFile fails on it)
+		return "err:nokey", nil
+	}
 	sort.Strings(ys)
 	return joinOr(ys), ys
 }
